@@ -59,6 +59,7 @@ var c05 = &modelCheck{
 		MinPlants:    0, MaxPlants: 3,
 		MinMutants: 0, MaxMutants: 2,
 		AddImport: 5,
+		PkgGuard:  5,
 	},
 	NonTrivial: func(cs *modelCase, v *verdict) bool { return v.Sites >= 1 },
 }
